@@ -31,6 +31,22 @@ def slots_of(e):
     return out
 
 
+def opt_wire(o):
+    extra = o.extra_data or {}
+    return {"slots": C.enc(slots_of(o)), "extra": C.enc(jsonable(extra))}
+
+
+def scalars_of(e):
+    out = []
+    for k, v in (getattr(e, "_qtd_defaults", None) or {}).items():
+        if isinstance(v, dict):
+            continue
+        if not isinstance(v, str):
+            raise C.Unsupported("non-string scalar in the type table")
+        out.append([k, v])
+    return out
+
+
 def cls_of(e):
     from pyxform.question import Option, OsmUploadQuestion, Question
     from pyxform.section import GroupedSection, RepeatingSection
@@ -58,14 +74,15 @@ def wire_el(e):
         "slots": C.enc(slots_of(e)),
         "qtd": list((getattr(e, "_qtd_defaults", None) or {}).keys()) if cls == "question" else [],
         "kw": C.enc(jsonable(getattr(e, "_qtd_kwargs", None) or {}) if cls == "question" else {}),
+        "scalars": scalars_of(e) if cls == "question" else [],
         "kids": [],
     }
     if cls in ("survey", "group", "repeat"):
         w["kids"] = [wire_el(c) for c in (e.children or [])]
     if cls == "survey" and e.choices:
-        w["choices"] = [[ln, [C.enc(slots_of(o)) for o in its.options]] for ln, its in e.choices.items()]
+        w["choices"] = [[ln, [opt_wire(o) for o in its.options]] for ln, its in e.choices.items()]
     if cls == "question" and "choices" in e.get_slot_names() and e.choices is not None:
-        w["opts"] = [C.enc(slots_of(o)) for o in e.choices.options]
+        w["opts"] = [opt_wire(o) for o in e.choices.options]
     return w
 
 
@@ -86,6 +103,22 @@ def check(ctx, case, obs):
     r = ctx.driver.call("tojson.reload_own", slots=w["slots"], **{"del": ["_survey_element_xpath", "extra_data"]})
     if r["d1"] != r["d2"]:
         ctx.mismatch("model own-slot dump not stable", case, r["d1"], r["d2"])
+    # options: model dump / reload / dump against the implementation's Option(**dump).to_json_dict()
+    from pyxform.question import Option
+
+    n = 0
+    for ln, its in (s.choices or {}).items():
+        for o in its.options:
+            if n >= 6:
+                break
+            n += 1
+            r = ctx.driver.call("tojson.option_reload", opt=opt_wire(o))
+            d1 = o.to_json_dict(delete_keys=("parent",))
+            o2 = Option(**d1)
+            want = {"d1": C.enc(jsonable(d1)), "extra2": C.enc(jsonable(o2.extra_data or {})),
+                    "d2": C.enc(jsonable(o2.to_json_dict(delete_keys=("parent",))))}
+            if r != want:
+                ctx.mismatch("ToJson option dump/reload/dump vs Option", case, want, r)
 
 
 def unwire(w):
